@@ -33,6 +33,10 @@ type c28Server struct {
 	ln net.Listener
 }
 
+// c28SlowBody > 0 makes the fake agent pause that long between a record's header and its
+// body, so that Stop/Close can land while the reader goroutine is inside Handle.
+var c28SlowBody time.Duration
+
 func c28Serve(conn net.Conn) {
 	defer conn.Close()
 	r := bufio.NewReader(conn)
@@ -90,7 +94,15 @@ func c28Serve(conn net.Conn) {
 						}
 						rec = map[string]any{"Type": typ, "From": "n" + strconv.Itoa(i), "Payload": []byte("r")}
 					}
-					if err := send(&c28Resp{Seq: seq}, rec); err != nil {
+					if c28SlowBody > 0 {
+						if err := send(&c28Resp{Seq: seq}); err != nil {
+							return
+						}
+						time.Sleep(c28SlowBody)
+						if err := send(rec); err != nil {
+							return
+						}
+					} else if err := send(&c28Resp{Seq: seq}, rec); err != nil {
 						return
 					}
 					i++
@@ -127,6 +139,12 @@ func c28Gen(rng *rand.Rand, tier string) []Case {
 		iters = 200
 	}
 	kinds := []string{"stream", "monitor", "query"}
+	// Stop / Close landing between a record's header and body (slow server), and a Stop issued
+	// after Close (second deregistration of the same handler)
+	for i, k := range []string{"stream", "monitor", "query"} {
+		out = append(out, Case{ID: fmt.Sprintf("slow%d", i), Ops: []string{fmt.Sprintf("race %s slowstop %d %d", k, iters/4, rng.Int63())}, Nontrivial: true, Tags: []string{k + "-slowstop"}})
+		out = append(out, Case{ID: fmt.Sprintf("cs%d", i), Ops: []string{fmt.Sprintf("race %s closestop %d %d", k, iters/4, rng.Int63())}, Nontrivial: true, Tags: []string{k + "-closestop"}})
+	}
 	for i := 0; i < n; i++ {
 		k := kinds[i%3]
 		end := "stop"
@@ -174,6 +192,10 @@ func c28Race(kind, end string, iters int, seed int64) string {
 		}
 	}()
 	rng := rand.New(rand.NewSource(seed))
+	c28SlowBody = 0
+	if end == "slowstop" {
+		c28SlowBody = 2 * time.Millisecond
+	}
 	closed := 0
 	var cl *client.RPCClient
 	for i := 0; i < iters; i++ {
@@ -217,10 +239,19 @@ func c28Race(kind, end string, iters int, seed int64) string {
 		if err != nil {
 			return "subscribe-error " + err.Error()
 		}
-		time.Sleep(time.Duration(rng.Intn(300)) * time.Microsecond)
-		if end == "stop" && kind != "query" {
-			_ = cl.Stop(h)
+		if end == "slowstop" {
+			time.Sleep(time.Duration(1000+rng.Intn(4000)) * time.Microsecond)
 		} else {
+			time.Sleep(time.Duration(rng.Intn(300)) * time.Microsecond)
+		}
+		switch {
+		case (end == "stop" || end == "slowstop") && kind != "query":
+			_ = cl.Stop(h)
+		case end == "closestop":
+			_ = cl.Close()
+			_ = cl.Stop(h) // a second deregistration must not close the channel again
+			cl = nil
+		default:
 			_ = cl.Close()
 			cl = nil
 		}
